@@ -95,6 +95,7 @@ func Load(dir string, tags string) (*Prog, error) {
 	}
 	p.collectFuncs()
 	p.indexCalls()
+	p.buildCanon()
 	return p, nil
 }
 
